@@ -1,7 +1,7 @@
 (* C13: the resolve loop with its index fix-up refines the identity-level loop.
    Particles are viewed as (ghost id, flagged-for-removal). *)
 From Coq Require Import ZArith List Bool Lia ZifyBool Permutation.
-From RV Require Import Common.Num C13.Model.
+From RV Require Import Common.Num C13.Model C13.LoopNA.
 Import ListNotations.
 Open Scope Z_scope.
 
@@ -79,7 +79,7 @@ Notation V := (Z * bool)%type.
 Definition flagV (x : V) : V := (fst x, true).
 Definition idsV (v : list V) : list Z := map fst v.
 Definition liveids (v : list V) : list Z := map fst (filter (fun x => negb (snd x)) v).
-Definition rmV := remove_particle (P:=V) flagV.
+Definition rmV := remove_particle_na (P:=V) flagV.
 (* where the particle that sat at index i sits after particle k was removed *)
 Definition rmi (tree keep : bool) (k nnew i : Z) : Z := if tree then i else remap keep k nnew i.
 
@@ -97,10 +97,12 @@ Proof.
   destruct (nth_error_split _ _ Hk) as (l1 & l2 & E & Hl1). subst v.
   assert (HK : k = zlen l1) by (unfold zlen; lia).
   assert (HKn : Z.to_nat k = length l1) by lia.
-  unfold rmV, remove_particle. rewrite HKn. rewrite HKn in Hk.
+  unfold rmV, remove_particle_na. rewrite HKn. rewrite HKn in Hk.
   destruct ((zlen (l1 ++ (a, false) :: l2) <=? k) || (k <? 0)) eqn:E1; [lia|].
-  destruct (zlen (l1 ++ (a, false) :: l2) =? 1) eqn:E2.
-  { (* r->N == 1 *)
+  rewrite (andb_comm keep tree), Htk.
+  destruct ((zlen (l1 ++ (a, false) :: l2) =? 1) && negb tree) eqn:E2.
+  { (* r->N == 1, no tree *)
+    apply andb_prop in E2. destruct E2 as [E2 _].
     rewrite zlen_app, zlen_cons in E2. pose proof (zlen_nonneg l1). pose proof (zlen_nonneg l2).
     assert (l1 = []) by (destruct l1; [auto | rewrite zlen_cons in *; pose proof (zlen_nonneg l1); lia]).
     assert (l2 = []) by (destruct l2; [auto | rewrite zlen_cons in *; pose proof (zlen_nonneg l2); lia]).
@@ -111,7 +113,7 @@ Proof.
     - cbn. apply Permutation_refl. }
   destruct keep.
   { (* keep_sorted: shift down *)
-    destruct tree; [discriminate|].
+    destruct tree; [discriminate|]. clear E2.
     rewrite firstn_len_app, skipn_Slen_app. exists (l1 ++ l2). split; [reflexivity|]. split; [|split].
     - unfold idsV in *. rewrite map_app in *. cbn in Hnd. eapply NoDup_remove_1; eauto.
     - intros i x Hi Hz. unfold rmi, remap.
@@ -347,13 +349,14 @@ Proof. unfold zlen, view. rewrite map_length. reflexivity. Qed.
 
 Lemma remove_view tree keep ps k :
   rmV tree keep (view ps) k =
-  (view (fst (remove_particle flag tree keep ps k)), snd (remove_particle flag tree keep ps k)).
+  (view (fst (remove_particle_na flag tree keep ps k)), snd (remove_particle_na flag tree keep ps k)).
 Proof.
-  unfold rmV, remove_particle. rewrite zlen_view.
+  unfold rmV, remove_particle_na. rewrite zlen_view.
   destruct ((zlen ps <=? k) || (k <? 0)); [reflexivity|].
-  destruct (zlen ps =? 1); [reflexivity|].
+  destruct (keep && tree); [reflexivity|].
+  destruct ((zlen ps =? 1) && negb tree); [reflexivity|].
   destruct keep.
-  - destruct tree; [reflexivity|]. cbn [fst snd]. unfold view. rewrite map_app, firstn_map, skipn_map. reflexivity.
+  - cbn [fst snd]. unfold view. rewrite map_app, firstn_map, skipn_map. reflexivity.
   - destruct tree.
     + cbn [fst snd]. unfold view. rewrite nth_error_map. destruct (nth_error ps (Z.to_nat k)) as [p|]; cbn [option_map]; [|reflexivity].
       rewrite upd_map. unfold flagV. cbn [fst]. rewrite flag_pid, flag_set. reflexivity.
@@ -368,14 +371,14 @@ Definition inv (v : list V) (fx : entry -> entry) (rmd : list Z) (rest : list en
 
 Lemma stage tree keep fx ps k other a rmd rest D ps' other' fx' :
   tree && keep = false -> inv (view ps) fx rmd rest D -> zth (view ps) k = Some (a, false) ->
-  remove_stage flag tree keep fx ps k other = (ps', other', fx') ->
+  remove_stage_na flag tree keep fx ps k other = (ps', other', fx') ->
   inv (view ps') fx' (a :: rmd) rest D /\
   Permutation (liveids (view ps') ++ a :: rmd) (liveids (view ps) ++ rmd) /\
   (forall x, other <> k -> zth (view ps) other = Some x -> zth (view ps') other' = Some x).
 Proof.
-  intros Htk [Hnd HF] Hk HS. unfold remove_stage in HS.
+  intros Htk [Hnd HF] Hk HS. unfold remove_stage_na in HS.
   destruct (removeV_spec tree keep _ _ _ Htk Hnd Hk) as (v' & Hrm & Hnd' & Hmv & Hperm).
-  rewrite remove_view in Hrm. destruct (remove_particle flag tree keep ps k) as [psx b]. cbn [fst snd] in Hrm.
+  rewrite remove_view in Hrm. destruct (remove_particle_na flag tree keep ps k) as [psx b]. cbn [fst snd] in Hrm.
   injection Hrm as Hv Hb. subst b. injection HS as <- <- <-. rewrite <- zlen_view, Hv.
   split; [|split].
   - split; [exact Hnd'|]. induction HF as [|e d rest' D' [Hw Hd] HF IH]; constructor; auto.
@@ -387,7 +390,7 @@ Qed.
 
 Lemma cond_stage (b : bool) tree keep fx ps k other a rmd rest D ps' other' fx' :
   tree && keep = false -> inv (view ps) fx rmd rest D -> zth (view ps) k = Some (a, false) ->
-  (if b then remove_stage flag tree keep fx ps k other else (ps, other, fx)) = (ps', other', fx') ->
+  (if b then remove_stage_na flag tree keep fx ps k other else (ps, other, fx)) = (ps', other', fx') ->
   inv (view ps') fx' ((if b then [a] else []) ++ rmd) rest D /\
   Permutation (liveids (view ps') ++ (if b then [a] else []) ++ rmd) (liveids (view ps) ++ rmd) /\
   (forall x, other <> k -> zth (view ps) other = Some x -> zth (view ps') other' = Some x).
@@ -405,14 +408,14 @@ Qed.
 Lemma loop_refines tree keep : tree && keep = false ->
   forall pend fx s ps rmd D s' psf log,
   inv (view ps) fx rmd pend D ->
-  resolve_loop pid flag res tree keep fx s ps pend = (s', psf, log) ->
+  resolve_loop_na pid flag res tree keep fx s ps pend = (s', psf, log) ->
   replay D (map ev_id log) rmd /\ NoDup (idsV (view psf)) /\
   Permutation (liveids (view psf) ++ racc (map ev_id log) rmd) (liveids (view ps) ++ rmd).
 Proof.
   intros Htk. induction pend as [|e0 rest IH]; intros fx s ps rmd D s' psf log [Hnd HF] HL.
   - inversion HF; subst. cbn in HL. injection HL as <- <- <-. cbn. split; [reflexivity|]. split; [exact Hnd|apply Permutation_refl].
   - inversion HF as [|e0' d0 rest' D' [Hwf Hden] HF']; subst.
-    cbn [resolve_loop] in HL. destruct (fx e0) as [[p1 p2] g] eqn:Efx. destruct d0 as [[da db] dg].
+    cbn [resolve_loop_na] in HL. destruct (fx e0) as [[p1 p2] g] eqn:Efx. destruct d0 as [[da db] dg].
     destruct (negb (p1 =? -1) && negb (p2 =? -1)) eqn:Et.
     + destruct Hwf as [[-> ->]|([a1 Z1] & [a2 Z2] & Hne)]; [discriminate|].
       cbn [den] in Hden. rewrite Z1, Z2 in Hden. cbn [fst] in Hden.
@@ -420,11 +423,11 @@ Proof.
       destruct (memz da rmd || memz db rmd) eqn:Em; [discriminate|]. injection Hden as <- <- <-.
       destruct (res s ps (p1, p2, g)) as [[s1 psr] o] eqn:Er.
       pose proof (res_frame _ _ _ _ _ _ Er) as Hfr.
-      destruct (if Z.testbit o 0 then remove_stage flag tree keep fx psr p1 p2 else (psr, p2, fx))
+      destruct (if Z.testbit o 0 then remove_stage_na flag tree keep fx psr p1 p2 else (psr, p2, fx))
         as [[ps1 p2a] fx1] eqn:S1.
-      destruct (if Z.testbit o 1 then remove_stage flag tree keep fx1 ps1 p2a p1 else (ps1, p1, fx1))
+      destruct (if Z.testbit o 1 then remove_stage_na flag tree keep fx1 ps1 p2a p1 else (ps1, p1, fx1))
         as [[ps2 p1x] fx2] eqn:S2.
-      destruct (resolve_loop pid flag res tree keep fx2 s1 ps2 rest) as [[s2 psf2] log2] eqn:HL2.
+      destruct (resolve_loop_na pid flag res tree keep fx2 s1 ps2 rest) as [[s2 psf2] log2] eqn:HL2.
       injection HL as <- <- <-.
       assert (I0 : inv (view psr) fx rmd rest D') by (rewrite Hfr; split; assumption).
       rewrite <- Hfr in Z1, Z2.
@@ -457,7 +460,7 @@ Definition live_entry (v : list V) (e : entry) : Prop :=
 
 Theorem loop_refines_top tree keep ps pend s s' psf log :
   tree && keep = false -> NoDup (idsV (view ps)) -> Forall (live_entry (view ps)) pend ->
-  resolve_loop pid flag res tree keep (fun e => e) s ps pend = (s', psf, log) ->
+  resolve_loop_na pid flag res tree keep (fun e => e) s ps pend = (s', psf, log) ->
   replay (map (den0 (view ps)) pend) (map ev_id log) [] /\
   never_after (map ev_id log) [] /\
   NoDup (idsV (view psf)) /\ NoDup (racc (map ev_id log) []) /\
